@@ -110,6 +110,24 @@ func ruleReattach(c *Ctx) {
 			}
 		}
 	}
+	// reattach takes the protocol it is given: the allowed-protocol list is a
+	// filter for what a launched plugin may announce and does not apply here
+	// (its default, net/rpc only, would refuse every gRPC plugin whose host did
+	// not repeat the list in the reattaching configuration)
+	if apF := p.FieldObj(modPath, "ClientConfig", "AllowedProtocols"); apF != nil {
+		var use ast.Node
+		ast.Inspect(f.Body, func(x ast.Node) bool {
+			if se, ok := x.(*ast.SelectorExpr); ok && SelField(info, se) == apF {
+				use = se
+			}
+			return true
+		})
+		if use != nil {
+			c.R.Violate("R-REATTACH", p.Pos(use), f.Name, "reattach does not filter by AllowedProtocols", "the reattach path consults ClientConfig.AllowedProtocols: a reattach configuration for a gRPC plugin is refused unless the host repeats the allowed list, although the protocol was negotiated when the plugin was launched", nil)
+		} else {
+			c.R.Hold("R-REATTACH", p.Pos(f.Node()), f.Name, "reattach does not filter by AllowedProtocols", "no read of ClientConfig.AllowedProtocols on the reattach path", true)
+		}
+	}
 	// address and protocol come from the reattach config
 	srcOf := func(dst *types.Var) []*types.Var {
 		var out []*types.Var
